@@ -108,6 +108,7 @@ Definition graph_wf_b : bool :=
 Definition writer_blocking (l : leafk) : bool :=
   match l with
   | Acquire k => N.eqb k lock_Router_mu
+  | Release _ => false
   | ChanOp | Select | CondWait | WaitGroupWait | Sleep | SpinLoad => true
   end.
 
